@@ -1,6 +1,7 @@
 package props
 
 import (
+	"math/rand"
 	"strings"
 	"time"
 
@@ -59,5 +60,45 @@ func C10(run *vf.Run) {
 	if run.Thorough() {
 		txm.ReplayEdges(run, txm.MCOpts{Name: "body-edges-mixed", Engines: `{"On", "DetectionOnly"}`, ReqLimits: "{2}", Ks: "{1, 3}", Modes: `{"slice", "unknown"}`,
 			DisruptKinds: `{"deny"}`, Phases2: "{2}", Workers: 14, Timeout: 120 * time.Minute, Scales: []txm.Scale{1}, Relevant: bodyComponent})
+	}
+}
+
+func init() { Registry["XTXTRACE"] = c02Trace } // development entry: trace validation alone
+
+// c02Trace: code -> spec. Random call sequences (repeated, out-of-order and interleaved calls, all three
+// write entry points on both sides) are driven on real transactions over the configurations of the
+// lifecycle instance, every call is logged when it returns, and TLC validates the log against Tx.tla.
+func c02Trace(run *vf.Run) {
+	cfgs := txm.CollectCfgs(run, txm.MCOpts{Name: "trace-cfgs", Engines: `{"On", "DetectionOnly", "Off"}`, ReqLimits: "{2}", Ks: "{1}", Modes: `{"slice"}`,
+		DisruptKinds: `{"deny", "redirect301late", "ctlDet", "ctlOn", "ctlOff", "ctlReqOn", "ctlReqOff", "ctlRespOn"}`, Phases2: "{1, 2, 3, 4, 5}", Qs: "{0, 2, 4}",
+		Timeout: 10 * time.Minute})
+	if len(cfgs) == 0 {
+		return
+	}
+	// sample configurations (seeded), a few random paths each
+	rng := rand.New(rand.NewSource(run.Seed))
+	rng.Shuffle(len(cfgs), func(i, j int) { cfgs[i], cfgs[j] = cfgs[j], cfgs[i] })
+	n := vf.Pick(run, 150, 1500)
+	if n > len(cfgs) {
+		n = len(cfgs)
+	}
+	ok, events, detail := txm.TraceTx(run, cfgs[:n], vf.Pick(run, 2, 4), 12, run.Seed, 0)
+	run.Logf("Tx_Trace: %d configurations, %d events, accepted=%v %s", n, events, ok, detail)
+	if len(run.InconclusiveList()) > 0 {
+		return
+	}
+	if !ok && !strings.Contains(detail, "TRACE_REJECTED_AT") && !strings.Contains(detail, "violated ") {
+		run.Inconclusive("Tx_Trace: TLC did not complete: %s", detail)
+		return
+	}
+	if !ok {
+		run.Violate(vf.Violation{Signature: "tx:trace-rejected", What: "a recorded call sequence of real transactions is not a behaviour of Tx.tla: " + detail, Replay: map[string]any{"family": "tx-trace", "seed": run.Seed, "detail": detail}})
+		return
+	}
+	run.TraceValidated(n * vf.Pick(run, 2, 4))
+	// binding self-test: one falsified field must make TLC reject the log
+	ok2, _, _ := txm.TraceTx(run, cfgs[:10], 2, 12, run.Seed, 1)
+	if ok2 {
+		run.Inconclusive("Tx_Trace accepted a log with a falsified field: the trace specification does not bind")
 	}
 }
